@@ -515,3 +515,23 @@ func runConcurrent(spec *Spec, r *Ref, m *MethodSpec, fn reflect.Value, S reflec
 		}
 	}
 }
+
+// Check lets hand-written glue report one observation for a case.
+func (o *Out) Check(caseName, method string, ok bool, kind, detail string) {
+	ev := &MethodEvent{Ev: "method", Case: caseName, Method: method, Values: 1, Judged: 1, NonTrivial: 1}
+	if !ok {
+		ev.Violations = []Violation{{Kind: kind, Method: method, Detail: detail}}
+		ev.NViol = 1
+	}
+	o.Emit(ev)
+}
+
+// Try runs f and reports a panic as a violation.
+func (o *Out) Try(caseName, method string, f func()) {
+	defer func() {
+		if r := recover(); r != nil {
+			o.Check(caseName, method, false, "panic", fmt.Sprint(r))
+		}
+	}()
+	f()
+}
